@@ -61,14 +61,29 @@ impl Known {
         self.by_prop.get(prop).map(|v| v.as_slice()).unwrap_or(&[])
     }
 
-    /// First active finding of `prop` whose trigger occurs in `src`.
-    pub fn excluded(&self, prop: &str, src: &str, root: &SyntaxNode) -> Option<String> {
+    /// First active finding of `prop` whose trigger occurs in `src` (and, for the findings that
+    /// only exist for some indent units, in the configuration; `None` = any configuration).
+    pub fn excluded(&self, prop: &str, src: &str, root: &SyntaxNode, cfg: Option<&crate::api::Cfg>) -> Option<String> {
         let act = self.active(prop);
         if act.is_empty() {
             return None;
         }
         let trig = triggers(src, root);
-        act.iter().find(|id| trig.iter().any(|t| *t == id.as_str())).cloned()
+        act.iter()
+            .find(|id| trig.iter().any(|t| (*t == id.as_str() && applies(id, cfg)) || (*t == "R22w" && id.as_str() == "R22")))
+            .cloned()
+    }
+}
+
+/// Findings whose defect depends on the indent unit (measured on the pinned tree over a grid of
+/// shapes x units): R22 (markers nested on one line) needs a unit other than the marker width 2,
+/// R31 (item on the line of the opening bracket) a unit >= 3. With the default unit these input
+/// classes are searched like any other.
+fn applies(id: &str, cfg: Option<&crate::api::Cfg>) -> bool {
+    match (id, cfg) {
+        ("R22", Some(c)) => c.tab != 2,
+        ("R31", Some(c)) => c.tab >= 3,
+        _ => true,
     }
 }
 
@@ -583,7 +598,10 @@ pub fn triggers(src: &str, root: &SyntaxNode) -> Vec<&'static str> {
                     })
                 });
                 if nested_same_line {
-                    add("R22");
+                    // with the default unit 2 only parents whose marker is not two columns wide
+                    // (terms, numbered enum items) are affected: see `applies`
+                    let two_col_marker = f.node.children().next().is_some_and(|m| matches!(m.text().as_str(), "-" | "+"));
+                    add(if two_col_marker { "R22" } else { "R22w" });
                 }
             }
             // R18: the blank at the inner edge of a content block / strong / emph body may be turned
